@@ -54,3 +54,41 @@ pub mod verif_kani {
         assert!(c == a, "clone is equal");
     }
 }
+
+// Bounded native search for the parts of C13 no contract reaches: Display (Formatter) and Hash (derive), plus a cross-check of
+// ==, cmp and case-insensitivity against the normalised text.
+#[cfg(all(test, gtker_wow_srp_verif))]
+mod verif_search {
+    use super::*;
+    use std::collections::hash_map::DefaultHasher;
+    use std::hash::{Hash, Hasher};
+    struct Rng(u64);
+    impl Rng { fn next(&mut self) -> u64 { self.0 ^= self.0 << 13; self.0 ^= self.0 >> 7; self.0 ^= self.0 << 17; self.0 } }
+    fn hash_of(n: &NormalizedString) -> u64 { let mut h = DefaultHasher::new(); n.hash(&mut h); h.finish() }
+    #[test]
+    fn verif_search_c13_display_hash() {
+        let seed = std::env::var("VERIF_SEED").ok().and_then(|s| s.parse::<u64>().ok()).unwrap_or(0) ^ 0x9E3779B97F4A7C15;
+        let mut rng = Rng(seed);
+        let mut n = 0u64;
+        let mut prev: Option<(NormalizedString, String)> = None;
+        for round in 0..3000 {
+            let len = 1 + (rng.next() % 16) as usize;
+            let s: String = (0..len).map(|_| (0x20 + (rng.next() % 0x5f) as u8) as char).collect();
+            let up = s.to_ascii_uppercase();
+            let a = NormalizedString::new(&s).unwrap();
+            let b = NormalizedString::new(s.to_ascii_lowercase()).unwrap();
+            n += 1;
+            if a.as_ref() != up || format!("{}", a) != up || a.to_string() != up { println!("REPLAY-FAIL c13_display_hash text/display of {:?} is {:?} / {:?}, expected {:?}", s, a.as_ref(), format!("{}", a), up); return; }
+            if a != b || hash_of(&a) != hash_of(&b) || a.cmp(&b) != core::cmp::Ordering::Equal { println!("REPLAY-FAIL c13_display_hash case variants of {:?} are not equal / hash differently", s); return; }
+            if NormalizedString::new(a.as_ref()).unwrap() != a { println!("REPLAY-FAIL c13_display_hash normalising {:?} twice changes it", s); return; }
+            if NormalizedString::from_string(s.clone()).unwrap() != a || NormalizedString::from_str(&s).unwrap() != a { println!("REPLAY-FAIL c13_display_hash constructors disagree on {:?}", s); return; }
+            if let Some((p, ptext)) = &prev {
+                if (a == *p) != (up == *ptext) || a.cmp(p) != up.as_bytes().cmp(ptext.as_bytes()) || a.partial_cmp(p) != Some(up.as_bytes().cmp(ptext.as_bytes())) {
+                    println!("REPLAY-FAIL c13_display_hash ordering/equality of {:?} and {:?} does not follow the normalised text (round {})", up, ptext, round); return;
+                }
+            }
+            prev = Some((a, up));
+        }
+        println!("REPLAY-STATS c13_display_hash inputs={} all-ok", n);
+    }
+}
